@@ -277,14 +277,34 @@ def mixed_cases(rng, tier):
     return out
 
 
+def fresh_cases(rng, tier, pc):
+    """the date-time-like spelling is decoded by a time point parser that DurationParser builds itself: its answer must
+    not depend on which other parsers the process built before (a parser restricted to basic notation, one that allows
+    truncated forms, other expanded-year digits).  Each case runs in a new interpreter: first a time point parse under
+    one of those configurations, then the duration text."""
+    alts = [c for c in pc if c.meta.get("kind") == "alt"]
+    pre = ["parse G 2 0 1 0 0 0 0 0 0 20000101T00Z", "parse G 2 1 0 - - 1 0 0 0 T06", "parse G 0 0 0 0 0 0 0 0 0 2000-01-01T00Z",
+           "parse G 3 0 1 0 0 0 0 0 0 +000200001", "parse 360 2 0 1 0 0 0 0 0 0 20000230"]
+    out = []
+    for i in range(10 if tier == "quick" else 60):
+        c = alts[rng.randrange(len(alts))]
+        first = pre[i % len(pre)]
+        inner = c.lines[0]
+        out.append(Case(["fresh impl_text,impl_durtext %s %s" % (enc(first), enc(inner))], ["fresh-process", "after:" + first.split()[2:5][2]],
+                        kind="fresh", text=c.meta["text"], inner=inner, expect=c.meta["expect"], first=first))
+    return out
+
+
 def generate(rng, tier):
     rc = round_cases(rng, tier) + mixed_cases(rng, tier)
     pc = parse_cases(rng, tier)
     seeds = [c.meta["text"] for c in pc]
-    return rc + pc + mutation_cases(rng, tier, seeds)
+    return rc + pc + fresh_cases(rng, tier, pc) + mutation_cases(rng, tier, seeds)
 
 
 def model_lines(c):
+    if c.meta.get("kind") == "fresh":
+        return [c.meta["inner"]]
     return list(c.lines)
 
 
@@ -342,6 +362,11 @@ def judge(c):
             res.append(("violation", "str(%s) gave %r then %r" % (d, parts[0], I[1])))
         if not same_dur(parse_dur(parts[1]), parse_dur(d)):
             res.append(("violation", "parse(str(d)) = %s has other components than d = %s (text %s)" % (parts[1], d, parts[0])))
+        return res
+    if kind == "fresh":
+        if not same_dur(parse_dur(I[0]), parse_dur(c.meta["expect"])):
+            res.append(("violation", "in a new process, after `%s`: parse(%r) = %s, expected %s" % (
+                c.meta["first"], c.meta["text"], I[0], c.meta["expect"])))
         return res
     if kind == "parse":
         if not same_dur(parse_dur(I[0]), parse_dur(c.meta["expect"])):
